@@ -414,6 +414,15 @@ PROPS["C18"]["claim"] += (" THE OTHER HALF (requested_closure_is_marked, Lemmas/
     "'every marked build not inside its own validation loop has the producers of all its inputs marked' (re-entrant visits included), and Work::run never "
     "un-marks a build (runLoop_mono). With only_requested_closure: exactly the requested closure.")
 
+PROPS["C02"]["claim"] += (" NEVER SKIPS A CHANGED STEP (never_skips_a_changed_step, changed_step_is_not_clean, clean_iff_up_to_date; Lemmas/WorkSkip): at any point "
+    "of any invocation with a truthful stat cache, a non-phony step that check_build_dirty finds clean has every dirtying input, remembered "
+    "dependency and output present and carries (from its latest record, C09) exactly the manifest of the tree as it is now - names + mtimes of "
+    "inputs, remembered dependencies and outputs, command line, response file; so any such difference, a removed file or a missing record means "
+    "'not clean'. With the generated inputs stat()ed, clean <-> up to date.")
+PROPS["C03"]["claim"] += (" REFLECTION (settled_world_is_left_alone, Lemmas/WorldReflect): the decidable predicate the monitor settledAfterSuccess evaluates "
+    "on the world the real n2 left behind (World.settledC = World.settled + a closedness check of the computed closure) IMPLIES the hypothesis of "
+    "repeated_build_does_nothing - so every world on which the monitor said 'settled' (evidence: driver.settledStates) is one for which it is proved "
+    "that any further invocation changes and runs nothing.")
 PROPS["C09"]["claim"] += (" ACROSS INVOCATIONS, FOR EVERY LOG (Lemmas/WorkDisc): start-up (applyLog, records WITH dependency lists) only interns source "
     "files and attaches to each step exactly the dependency list and signature of the LATEST record attributed to it "
     "(remembered_by_every_later_invocation, nothing_remembered_without_record); a success's record is the latest until the next one "
@@ -439,6 +448,10 @@ PROPS["C12"]["rule"] += (" || the real binary (mode diag): 12 positions in which
     "concatenations); expected: `n2: error:` and exit 1 where the input is in error, the ordinary outcome otherwise, never a panic (F15).")
 PROPS["C12"]["claim"] += (" The diagnostics that quote a manifest string (F15 repaired: `{:?}` of a String ending inside a multi-byte sequence panicked) "
     "are not modelled - Rust's formatting machinery is outside the model - and are checked on the real binary only (mode diag).")
+PROPS["C17"]["claim"] += (" BEFORE ANYTHING ELSE (manifest_phase_considers_only_the_manifest): when run::build asks for a reload, the only builds that ever "
+    "left Unknown are those the manifest needs - no target, default or other output has been looked at. WHOLE INVOCATION "
+    "(invocation_after_regeneration): after a reload everything is computed from the tree, clock and log the manifest phase left: the manifest is "
+    "loaded again, signatures attached from the log as it is, targets resolved by a fresh Work; only the trace and the task count of the first part survive.")
 PROPS["C17"]["modes"] = PROPS["C17"]["modes"] + ["sched"]
 PROPS["C17"]["nontrivial"]["sched"] = _sched_nontrivial
 PROPS["C17"]["monitors"] = PROPS["C17"]["monitors"] + ["exitOk", "stopsOnInterrupt", "traceSpec"]
